@@ -54,8 +54,6 @@ Fixpoint count_obj (l : list N) (o : N) (fuel : nat) : N :=
   | O => 0
   | S f => match l with x :: _ :: _ :: r => (if x =? o then 1 else 0) + count_obj r o f | _ => 0 end
   end.
-Fixpoint is_prefix_n (p l : list N) : bool :=
-  match p, l with [], _ => true | x :: p', y :: l' => (x =? y) && is_prefix_n p' l' | _, _ => false end.
 Definition holds_fault (a o : list N) : bool :=
   let free := flat_map (fun s => [obj_code (s_obj s); s_a s; s_b s]) (fault_sites a) in
   match o with
